@@ -97,6 +97,19 @@ class BasicDSG(DSG):
             removed_edges |= derived_edges
             removed_nodes |= derived_nodes
 
+        # Also remove nodes that are not floating themselves but can only be reached from removed nodes (e.g. cycles)
+        reachable_nodes = set(start_nodes)
+        to_visit = list(start_nodes)
+        while len(to_visit) > 0:
+            visit_node = to_visit.pop()
+            if isinstance(visit_node, ConnectionChoiceNode):  # Target connectors exist by virtue of their own nodes
+                continue
+            for edge in iter_out_edges(graph, visit_node):
+                if edge[1] not in reachable_nodes and get_edge_type(edge) in {EdgeType.DERIVES, EdgeType.CONNECTS}:
+                    reachable_nodes.add(edge[1])
+                    to_visit.append(edge[1])
+        removed_nodes |= {node for node in graph.nodes if node not in reachable_nodes}
+
         if len(removed_edges) > 0 or len(removed_nodes) > 0:
             dsg = dsg.get_for_adjusted(removed_edges=removed_edges, removed_nodes=removed_nodes)
 
